@@ -18,9 +18,13 @@ THOROUGH_S = 900
 CHUNK = 30
 
 RULE = ('A real asyncssh SFTP client (get, put, copy, open+read/write/append '
-        'with offsets) over a real SSH session talks to an adversarial SFTP '
+        'with offsets, and sequences of write/read/seek/tell through one '
+        'open file checked against a position model) over a real SSH '
+        'session talks to an adversarial SFTP '
         'responder backed by an in-memory reference file model: replies to '
         'the outstanding requests are released in scheduler-chosen order, '
+        'chosen replies are held back for several scheduler rounds so that '
+        'dependent requests overtake them, '
         'READs return drawn fractions of the requested size, the n-th READ or '
         'WRITE fails, the source ends before the size stat announced. Drawn '
         'per run: file sizes around block-size and request-count boundaries, '
@@ -29,7 +33,10 @@ RULE = ('A real asyncssh SFTP client (get, put, copy, open+read/write/append '
         'returned exactly the model\'s bytes); a call during which a block '
         'error was injected, or a non-sparse copy whose source ended early, '
         'must raise; nothing hangs. A second population runs the same '
-        'operations against the real SFTPServer on real files (fault-free) '
+        'operations against the real SFTPServer on real files (fault-free), '
+        'half of them with sparse=True on sources that really are sparse on '
+        'disk (drawn layouts of data and holes: leading, inner, trailing, '
+        'all-hole, page-boundary lengths), '
         'and requires byte equality. Non-trivial = at least one transfer of '
         '> 0 bytes; distinct = (plan, schedule, trace) signature.')
 
@@ -49,7 +56,8 @@ STUB = ['event loop + clock', 'TCP', 'executor', 'adversarial SFTP responder '
 PROBES = ['replies_reordered', 'replies_held_late', 'handle_sequences',
           'short_reads_served', 'read_error_injected',
           'write_error_injected', 'early_eof', 'op_raised', 'op_ok',
-          'parallel_requests', 'real_server', 'sparse_copy']
+          'parallel_requests', 'real_server', 'sparse_copy', 'hole_layouts',
+          'trailing_hole']
 
 _base = [None]
 
@@ -143,13 +151,56 @@ def gen_plan(rng):
         elif f == 'early_eof':
             policy['eof_frac'] = rng.choice([0, 100, 500, 900, 999])
 
+    sparse = real and rng.chance(50)
+
+    if sparse:
+        # hole layouts: [[kind, length], ...]; the file really is sparse
+        # on disk (tmpfs supports SEEK_DATA / SEEK_HOLE, page granularity)
+        bs = rng.choice([1024, 4096, 16384, 65536])
+
+        for op in ops:
+            if op['op'] in ('get', 'put', 'copy'):
+                layout = []
+                total = 0
+
+                for _s in range(rng.between(1, 4)):
+                    n = rng.choice([1, 4095, 4096, 4097, 8192, 20000, 70000])
+
+                    if total + n > bs * 100:
+                        break
+
+                    layout.append([rng.choice(['d', 'h']), n])
+                    total += n
+
+                if layout:
+                    op['layout'] = layout
+                    op['size'] = total
+
     probe = {'block_size': bs, 'ops': ops, 'policy': policy}
 
     if est_requests(probe) > 600:
         policy['short_reads'] = [500, 1000]
 
     while est_requests(probe) > 600:
-        max(ops, key=lambda o: o['size'])['size'] //= 2
+        big = max(ops, key=lambda o: o['size'])
+        big['size'] //= 2
+
+        if 'layout' in big:
+            # keep the layout in step with the size
+            left, fitted = big['size'], []
+
+            for k, n in big['layout']:
+                if left <= 0:
+                    break
+
+                fitted.append([k, min(n, left)])
+                left -= min(n, left)
+
+            big['layout'] = fitted
+            big['size'] = sum(n for _k, n in fitted)
+
+            if not fitted:
+                del big['layout']
 
     return {
         'drbg': rng.below(1 << 30),
@@ -157,7 +208,7 @@ def gen_plan(rng):
                     'p_chunk': rng.choice([10, 50]),
                     'latency_ms': rng.choice([0, 0, 2]),
                     'capacity': 0, 'max_iterations': 40000},
-        'real_server': real, 'sparse': real and rng.chance(40),
+        'real_server': real, 'sparse': sparse,
         'block_size': bs, 'max_requests': mr,
         'ops': ops, 'policy': policy,
     }
@@ -201,6 +252,14 @@ def valid_plan(plan):
             if op['size'] > plan['block_size'] * 150:
                 return False
 
+            if 'layout' in op:
+                if not plan['sparse'] or \
+                        op['op'] not in ('get', 'put', 'copy') or \
+                        sum(n for _k, n in op['layout']) != op['size'] or \
+                        any(k not in ('d', 'h') or n < 1
+                            for k, n in op['layout']):
+                    return False
+
         sr = plan['policy'].get('short_reads')
 
         if sr is not None and (not sr or any(not 1 <= x <= 1000
@@ -216,7 +275,7 @@ def valid_plan(plan):
             return False
 
         return True
-    except (KeyError, TypeError):
+    except (KeyError, TypeError, ValueError, IndexError):
         return False
 
 
@@ -264,6 +323,24 @@ def run_plan(plan, sched_seed=None, sched_replay=None):
         data = fs.files.get(b'/' + name.encode())
         return None if data is None else bytes(data)
 
+    def write_layout(path, layout, tag):
+        """Create a really sparse file; returns its content"""
+
+        pos = 0
+
+        with open(path, 'wb') as f:
+            for k, n in layout:
+                if k == 'd':
+                    f.seek(pos)
+                    f.write(gen_bytes(tag, pos, n).replace(b'\0', b'\1'))
+
+                pos += n
+
+            f.truncate(pos)
+
+        with open(path, 'rb') as f:
+            return f.read()
+
     def set_remote(name, data):
         if real:
             with open(os.path.join(srvroot, name), 'wb') as f:
@@ -306,9 +383,20 @@ def run_plan(plan, sched_seed=None, sched_replay=None):
                 policy.pop('eof_at', None)
                 policy.pop('announce_size', None)
 
+            if op.get('layout') and real:
+                sim.probes['hole_layouts'] += 1
+
+                if op['layout'][-1][0] == 'h':
+                    sim.probes['trailing_hole'] += 1
+
             try:
                 if kind == 'get':
-                    set_remote(rname, src)
+                    if op.get('layout') and real:
+                        src = write_layout(os.path.join(srvroot, rname),
+                                           op['layout'], 'c12s.%d' % i)
+                    else:
+                        set_remote(rname, src)
+
                     await sftp.get(rname, lpath, block_size=bs,
                                    max_requests=mr, sparse=plan['sparse'])
 
@@ -319,8 +407,12 @@ def run_plan(plan, sched_seed=None, sched_replay=None):
                     rec['detail'] = 'local %d bytes vs source %d' % \
                         (len(got), len(src))
                 elif kind == 'put':
-                    with open(lpath, 'wb') as f:
-                        f.write(src)
+                    if op.get('layout'):
+                        src = write_layout(lpath, op['layout'],
+                                           'c12s.%d' % i)
+                    else:
+                        with open(lpath, 'wb') as f:
+                            f.write(src)
 
                     await sftp.put(lpath, rname, block_size=bs,
                                    max_requests=mr, sparse=plan['sparse'])
@@ -329,7 +421,12 @@ def run_plan(plan, sched_seed=None, sched_replay=None):
                     rec['detail'] = 'remote %r bytes vs source %d' % \
                         (None if got is None else len(got), len(src))
                 elif kind == 'copy':
-                    set_remote(rname, src)
+                    if op.get('layout') and real:
+                        src = write_layout(os.path.join(srvroot, rname),
+                                           op['layout'], 'c12s.%d' % i)
+                    else:
+                        set_remote(rname, src)
+
                     await sftp.copy(rname, rname2, block_size=bs,
                                     max_requests=mr, sparse=plan['sparse'])
                     got = remote_bytes(rname2)
